@@ -354,9 +354,9 @@ type lessAdapter struct {
 	st       *types.Struct
 	latch    int  // index of the failure latch field (bool or error), -1 if none
 	latchErr bool // the latch is error-typed
-	fnField  int  // index of a func-typed field (-1 if none)
-	cands    []*ssa.Function // functions stored into fnField anywhere in the library
-	opaque   bool // a closure with free variables, or more than one func field: not decided
+	fnFields []int // indices of func-typed fields
+	configs  []map[int]*ssa.Function // assignments of library functions to those fields that occur together (same block, same object)
+	opaque   bool // a function value that is not a named library function: not decided
 }
 
 func (c *Ctx) lessAdapters() []*lessAdapter {
@@ -374,7 +374,7 @@ func (c *Ctx) lessAdapters() []*lessAdapter {
 			continue
 		}
 		named, _ := pt.Elem().(*types.Named)
-		ad := &lessAdapter{less: less, named: named, st: st, latch: -1, fnField: -1}
+		ad := &lessAdapter{less: less, named: named, st: st, latch: -1}
 		hasNode := false
 		for i := 0; i < st.NumFields(); i++ {
 			ft := st.Field(i).Type()
@@ -386,18 +386,24 @@ func (c *Ctx) lessAdapters() []*lessAdapter {
 				ad.latchErr = isErrorType(ft)
 			default:
 				if _, isSig := ft.Underlying().(*types.Signature); isSig {
-					if ad.fnField >= 0 {
-						ad.opaque = true
-					}
-					ad.fnField = i
+					ad.fnFields = append(ad.fnFields, i)
 				}
 			}
 		}
 		if !hasNode {
 			continue
 		}
-		if ad.fnField >= 0 {
-			seen := map[*ssa.Function]bool{}
+		if len(ad.fnFields) > 0 {
+			isFn := map[int]bool{}
+			for _, i := range ad.fnFields {
+				isFn[i] = true
+			}
+			type grp struct {
+				blk  *ssa.BasicBlock
+				base ssa.Value
+			}
+			groups := map[grp]map[int]*ssa.Function{}
+			var order []grp
 			for _, fn := range allFuncs(c.SLib) {
 				for _, b := range fn.Blocks {
 					for _, in := range b.Instrs {
@@ -406,7 +412,7 @@ func (c *Ctx) lessAdapters() []*lessAdapter {
 							continue
 						}
 						fa, ok := st2.Addr.(*ssa.FieldAddr)
-						if !ok || fa.Field != ad.fnField {
+						if !ok || !isFn[fa.Field] {
 							continue
 						}
 						if p2, ok := fa.X.Type().Underlying().(*types.Pointer); !ok || !types.Identical(p2.Elem(), pt.Elem()) {
@@ -414,21 +420,31 @@ func (c *Ctx) lessAdapters() []*lessAdapter {
 						}
 						switch v := st2.Val.(type) {
 						case *ssa.Function:
-							if !seen[v] {
-								seen[v] = true
-								ad.cands = append(ad.cands, v)
+							g := grp{b, fa.X}
+							if groups[g] == nil {
+								groups[g] = map[int]*ssa.Function{}
+								order = append(order, g)
 							}
-						case *ssa.MakeClosure:
-							ad.opaque = true
-						default:
-							if k, ok := v.(*ssa.Const); !ok || !k.IsNil() {
+							groups[g][fa.Field] = v
+						case *ssa.Const:
+							if !v.IsNil() {
 								ad.opaque = true
 							}
+						default:
+							ad.opaque = true
 						}
 					}
 				}
 			}
-			if len(ad.cands) == 0 {
+			for _, g := range order {
+				cfg := groups[g]
+				if len(cfg) != len(ad.fnFields) {
+					ad.opaque = true // a partial assignment: which functions go together is not visible
+					continue
+				}
+				ad.configs = append(ad.configs, cfg)
+			}
+			if len(ad.configs) == 0 {
 				ad.opaque = true
 			}
 		}
@@ -437,16 +453,16 @@ func (c *Ctx) lessAdapters() []*lessAdapter {
 	return out
 }
 
-// variants: one per candidate of the func field (a single nil variant when there is none).
-func (ad *lessAdapter) variants() []*ssa.Function {
-	if ad.fnField < 0 {
-		return []*ssa.Function{nil}
+// variants: one per assignment of library functions to the func fields (a single nil variant when there is none).
+func (ad *lessAdapter) variants() []map[int]*ssa.Function {
+	if len(ad.fnFields) == 0 {
+		return []map[int]*ssa.Function{nil}
 	}
-	return ad.cands
+	return ad.configs
 }
 
 // object builds the adapter on the heap: items is the items slice value.
-func (ad *lessAdapter) object(c *Ctx, h *Heap, items AV, choice *ssa.Function) int {
+func (ad *lessAdapter) object(c *Ctx, h *Heap, items AV, choice map[int]*ssa.Function) int {
 	o := &aobj{kind: 's'}
 	for i := 0; i < ad.st.NumFields(); i++ {
 		ft := ad.st.Field(i).Type()
@@ -455,8 +471,8 @@ func (ad *lessAdapter) object(c *Ctx, h *Heap, items AV, choice *ssa.Function) i
 			o.fields = append(o.fields, AV{k: 'E', tri: 1})
 		case i == ad.latch:
 			o.fields = append(o.fields, AV{k: 'B', tri: 2})
-		case i == ad.fnField && choice != nil:
-			o.fields = append(o.fields, AV{k: 'U', fn: choice, what: choice.Name()})
+		case choice != nil && choice[i] != nil:
+			o.fields = append(o.fields, AV{k: 'U', fn: choice[i], what: choice[i].Name()})
 		case c.isASTNode(ft):
 			o.fields = append(o.fields, AV{k: 'O', what: "node expref-body"})
 		default:
@@ -482,9 +498,15 @@ func (ad *lessAdapter) latched(h *Heap, id int) bool {
 	return f.tri&1 != 0
 }
 
-func (ad *lessAdapter) label(choice *ssa.Function) string {
+func (ad *lessAdapter) label(choice map[int]*ssa.Function) string {
 	if choice == nil {
 		return fname(ad.less)
 	}
-	return fname(ad.less) + "[" + choice.Name() + "]"
+	var n []string
+	for _, i := range ad.fnFields {
+		if f := choice[i]; f != nil {
+			n = append(n, f.Name())
+		}
+	}
+	return fname(ad.less) + "[" + strings.Join(n, ",") + "]"
 }
